@@ -106,7 +106,8 @@ def gen_case(rng, cid, focus):
     blen = lambda x: len(x.encode("utf-8"))
     maxrec = max([blen(r["n"]) + 2 * hs + blen(r["v"][1] if r["v"][0] == "s" else "") + 16 for r in refs] +
                  [blen(l["n"]) + 2 * hs + 9 + blen(l.get("msg", "")) + blen(l.get("user", "")) + blen(l.get("email", "")) + 30 for l in logs] + [64])
-    sizes = [b for b in (96, 128, 192, 256, 384, 512, 1024, 4096) if b >= maxrec + 60]
+    # (blocks above the default 4 KiB too: padding runs longer than a default block)
+    sizes = [b for b in (96, 128, 192, 256, 384, 512, 1024, 4096, 8192, 16384, 40000) if b >= maxrec + 60]
     blocksize = rng.choice(sizes + [0, 0]) if sizes else 0
     # a record larger than a whole block must be refused by the writer (and must not disturb its neighbours)
     if blocksize and blocksize <= 1024 and len(refs) >= 3 and rng.random() < 0.12:
@@ -169,6 +170,28 @@ def big_case2():
     refs = [{"n": "refs/heads/b%06d" % j, "i": 2, "v": ["v", "%040x" % (j * 2654435761 % (1 << 160)), ""]} for j in range(15000)]
     return {"id": "big-large-blocks", "blocksize": 128 << 10, "restart": 16, "unaligned": True, "skipindex": True, "hash": "sha1", "exact": False,
             "min": 2, "max": 2, "refs": refs, "logs": [], "seekrefs": [], "seeklogs": [], "oids": [], "universe": [], "layout": False, "big": True}
+
+
+def padding_cases(seed):
+    """padded layouts whose padding runs are longer than a default block (4096 bytes): blocks of 8-64 KiB that stay half empty
+    because the records are large, and a sparse last ref block of a multi-block ref section followed by index, object index and logs"""
+    out = []
+    rng = random.Random(seed * 977 + 5)
+    for k, (bs, n, tl, nlogs, skip) in enumerate([(16384, 3, 9000, 0, True), (8192, 4, 4500, 2, True), (65536, 3, 40000, 0, False), (16384, 5, 8300, 3, False)]):
+        refs = [{"n": "refs/sym/%d" % j, "i": 1, "v": ["s", "refs/heads/" + "x" * (tl + rng.randint(0, 50)), ""]} for j in range(n)]
+        if not skip:
+            refs.append({"n": "refs/zval", "i": 1, "v": ["v", "%040x" % 77, ""]})
+        logs = [{"n": "refs/sym/%d" % j, "i": 1, "del": False, "old": "", "new": "%040x" % (j + 1), "user": "A U Thor", "email": "a@example.com",
+                 "time": 1600000000, "tz": 60, "msg": "update"} for j in range(nlogs)]
+        out.append({"id": "padding-%d" % k, "blocksize": bs, "restart": 16, "unaligned": False, "skipindex": skip, "hash": "sha1", "exact": False,
+                    "min": 1, "max": 1, "refs": refs, "logs": logs, "seekrefs": ["", "refs/sym/1", "refs/sym/2", "refs/t"], "seeklogs": [{"n": "refs/sym/1", "i": 1}] if nlogs else [],
+                    "oids": [], "universe": [], "layout": True})
+    refs = [{"n": "refs/heads/branch%05d" % j, "i": 7, "v": ["v", "%040x" % (j * 2654435761 % (1 << 160)), ""]} for j in range(2300)]
+    logs = [{"n": "refs/heads/branch%05d" % j, "i": 7, "del": False, "old": "%040x" % 1, "new": "%040x" % (j + 2), "user": "A U Thor", "email": "a@example.com",
+             "time": 1600000000, "tz": 60, "msg": "update"} for j in range(5)]
+    out.append({"id": "padding-sparse-last", "blocksize": 16384, "restart": 16, "unaligned": False, "skipindex": False, "hash": "sha1", "exact": False,
+                "min": 7, "max": 7, "refs": refs, "logs": logs, "seekrefs": [], "seeklogs": [], "oids": [], "universe": [], "layout": False, "big": True})
+    return out
 
 
 def incompressible_cases(seed):
@@ -264,6 +287,8 @@ def run(pid, tier, merge=False):
             cases.append(kf_case())
         if pid in ("C01", "C02", "C14"):
             cases += incompressible_cases(seed)
+        if pid in ("C01", "C02", "C14"):
+            cases += padding_cases(seed)
         if pid in ("C01", "C14"):
             cases.append(big_case())
             cases.append(big_case2())
